@@ -65,12 +65,20 @@ Qed.
 
 Ltac norm := rt_unfold; rewrite ?map_id, ?py_get_0, ?py_del_slice_all; use_eqns.
 
+(* the next things the two sides inspect are the same operation on integer expressions that are equal by linear
+   arithmetic (n - 1 - k  for  n - (k + 1), ...): make them syntactically equal *)
+Ltac with_head t k := match_head t ltac:(fun x => head_scrut x k) ltac:(fun _ => fail).
+Ltac align l r :=
+  with_head l ltac:(fun yl => with_head r ltac:(fun yr =>
+    tryif constr_eq yl yr then fail
+    else replace yr with yl by solve [ repeat (f_equal; try lia) ])).
+
 Ltac crush_with rew :=
   repeat (norm;
           lazymatch goal with
-          | |- ?l = ?r => first [ progress rew | destruct_head l | destruct_head r ]
+          | |- ?l = ?r => first [ progress rew | align l r | destruct_head l | destruct_head r ]
           end);
-  norm; try reflexivity; try congruence.
+  norm; try reflexivity; try congruence; try solve [ repeat (f_equal; try lia) ].
 
 
 (* ---------------------------------------------------------------------------------------------- *)
